@@ -39,6 +39,8 @@ type c13dCase struct {
 	Resolver string `json:"resolver,omitempty"`
 	// Addr: address records of the (canonical) MX name: "" = A only, "aaaa" = IPv6-only host, "a+aaaa"
 	Addr string `json:"address_records,omitempty"`
+	// IDNHost: the MX host name holds an IDN A-label (it is queried as written, never as U-label)
+	IDNHost bool `json:"idn_mx_host,omitempty"`
 }
 
 type c13dNopLog struct{}
@@ -48,8 +50,11 @@ func (c13dNopLog) Printf(string, ...interface{}) {}
 var c13dServer *mockdns.Server
 
 func c13dRun(w *c13World, c c13dCase) (fp, detail, outcome string) {
-	const mx = c13MX
-	canon := "canon." + c13MX
+	mx := c13MX
+	if c.IDNHost {
+		mx = "mx.xn--e1afmkfd.example"
+	}
+	canon := "canon." + mx
 	zones := map[string]mockdns.Zone{}
 	addrName := mx
 	if c.Alias != "plain" {
@@ -205,7 +210,7 @@ func c13dRun(w *c13World, c c13dCase) (fp, detail, outcome string) {
 func TestVerifC13Discovery(t *testing.T) {
 	r := vx.Start("C13", "discovery")
 	defer r.Finish()
-	r.Rule("TLSA discovery for one MX through the real PrepareConn/CheckConn of the dane policy and the real DNSSEC-aware resolver against a loopback DNS server: MX name {plain, secure CNAME, insecure CNAME} x address records {A, AAAA only, both} authenticated or not x TLSA at the canonical name {none, matching EE, mismatching EE, SERVFAIL, not authenticated} x TLSA at the MX name (for aliases, the same five) x TLS {none, matching leaf}; plus an authenticated record set holding only records outside the defined parameter ranges; plus the same records served by a non-loopback fallback resolver (the loopback one does not answer); oracle: nothing from a non-loopback resolver is authenticated, a failed lookup of the applicable record set defers (temporary error), usable records are applied as in the statement, absent / non-authenticated records neither grant nor refuse. Non-trivial: all cases")
+	r.Rule("TLSA discovery for one MX through the real PrepareConn/CheckConn of the dane policy and the real DNSSEC-aware resolver against a loopback DNS server: MX name {plain, secure CNAME, insecure CNAME} x address records {A, AAAA only, both} authenticated or not x TLSA at the canonical name {none, matching EE, mismatching EE, SERVFAIL, not authenticated} x TLSA at the MX name (for aliases, the same five) x TLS {none, matching leaf}; plus an MX host name with an IDN A-label; plus an authenticated record set holding only records outside the defined parameter ranges; plus the same records served by a non-loopback fallback resolver (the loopback one does not answer); oracle: nothing from a non-loopback resolver is authenticated, a failed lookup of the applicable record set defers (temporary error), usable records are applied as in the statement, absent / non-authenticated records neither grant nor refuse. Non-trivial: all cases")
 	w := c13NewWorld()
 	if rp := r.Replay(); rp != nil {
 		var c c13dCase
@@ -244,6 +249,30 @@ func TestVerifC13Discovery(t *testing.T) {
 				continue
 			}
 			r.Outcome("non-loopback resolver: " + oc)
+		}
+	}
+	// an MX host name with an IDN A-label
+	for _, ac := range []string{"match", "mismatch"} {
+		for _, t := range []string{"none", "leaf"} {
+			for _, alias := range []string{"plain", "cname-secure"} {
+				idx++
+				if !r.Mine(idx) {
+					continue
+				}
+				c := c13dCase{Alias: alias, AD: true, AtCanon: ac, AtOrig: "none", TLS: t, IDNHost: true}
+				fp, detail, oc := c13dRun(w, c)
+				r.Eval()
+				r.Nontrivial(vx.JSON(c))
+				if fp == "HARNESS:dns" {
+					r.HarnessError(detail)
+					return
+				}
+				if fp != "" {
+					r.Violation(fp, detail+"\ncase: "+vx.JSON(c), c)
+					continue
+				}
+				r.Outcome("IDN MX host: " + oc)
+			}
 		}
 	}
 	// an authenticated RRset that holds only records outside the defined parameter ranges
